@@ -157,7 +157,7 @@ func init() {
 	}
 	Properties["C11"] = func(env *Env) []*Harness { return []*Harness{HImports(), HMock()} }
 	Properties["C12"] = func(env *Env) []*Harness { return []*Harness{HVars()} }
-	Properties["C14"] = func(env *Env) []*Harness { return []*Harness{HOrder()} }
+	Properties["C14"] = func(env *Env) []*Harness { return []*Harness{HOrder(), HImports()} }
 	Properties["C15"] = func(env *Env) []*Harness { return []*Harness{HRun(), HFixpoint()} }
 	Properties["C16"] = func(env *Env) []*Harness { return []*Harness{HHeader(), HMock(), HRun()} }
 	Properties["C18"] = func(env *Env) []*Harness { return []*Harness{HRun()} }
